@@ -380,7 +380,18 @@ def _sym_ctor(name, a, k):
     unsupported("%s with symbolic arguments" % name)
 
 
+def _unwrap0d(x):
+    """a list / tuple holding 0-d object arrays: numpy would splice a 0-d numeric array in as a scalar, but keeps a 0-d OBJECT
+    array as an element; restore the numeric behaviour"""
+    if isinstance(x, (list, tuple)):
+        return type(x)(_unwrap0d(v) for v in x) if not hasattr(x, '_fields') else x
+    if isinstance(x, _np.ndarray) and x.ndim == 0 and x.dtype == object:
+        return x.item()
+    return x
+
+
 def _np_array(x, *a, **k):
+    x = _unwrap0d(x)
     dt = k.get('dtype', a[0] if a else None)
     if has_sym(x) and dt not in (None, object):
         k.pop('dtype', None)
@@ -391,6 +402,7 @@ def _np_array(x, *a, **k):
 
 
 def _np_asarray(x, *a, **k):
+    x = _unwrap0d(x)
     dt = k.get('dtype', a[0] if a else None)
     if has_sym(x) and dt not in (None, object):
         return _np.asarray(x, dtype=object)
@@ -586,6 +598,20 @@ class _Random:
     @classmethod
     def randn(cls, *shape):
         return cls._draws('normal', shape if shape else None)
+
+    scripted_choice = None     # set by a contract: the selection np.random.choice returns on this run (any selection is a legal draw)
+
+    @classmethod
+    def choice(cls, a, size=None, replace=True, p=None):
+        if cls.scripted_choice is None:
+            unsupported("np.random.choice in a symbolic run without a scripted selection")
+        sel = _np.array(cls.scripted_choice)
+        n = int(a) if _np.ndim(a) == 0 else len(a)
+        if (size is not None and len(sel) != int(size)) or (len(sel) and (sel.max() >= n or sel.min() < 0)) or \
+                (not replace and len(set(sel.tolist())) != len(sel)):
+            unsupported("scripted selection %r is not a legal draw of choice(%r, %r, replace=%r)" % (cls.scripted_choice, a, size, replace))
+        sym.cur().event('random.choice', a, size, replace)
+        return sel
 
 
 _np_sqrt = _unary('sqrt')
